@@ -33,14 +33,14 @@ def meta(tier):
         'rule': 'numeric: directive in .byte/.2byte/.4byte/.8byte x endianness x every value list of length <=2 over 20 values '
                 '(length 3 over 7 values); strings: every string of length <=3 (quick: <=2 full, 3 over 5 characters) over 10 '
                 'characters/escapes x quote style x .byte/.cstr/.asciiz x terminator, and as embedded strings; fills: .fill n,v / '
-                '.zero n / .zerountil a over n in {0,1,3}, v in {0,0x41,0x1FF,-1}, a in cursor+{-2,-1,0,1,3}; each test line sits '
+                '.zero n / .zerountil a over n in {0,1,3}, v in {0,0x41,0x1FF,-1}, a in cursor+{-2,-1,0,1,3}; the same expression text (local / file labels) in several regions and files of one program; each test line sits '
                 'between a 3-byte prefix and a labelled sentinel so that misplaced sizes are visible; non-trivial = value outside '
                 '0..2^width-1, or a label expression, or a string with an escape / separator character, or a zero-length fill',
         'bounds': {'values': [R.rval(v) if not isinstance(v, int) else v for v in VALUES], 'chars': [c[0] for c in CHARS],
                    'terminators': TERMINATORS},
         'assumptions': ['terminator values above 255 are not generated (the statement does not say how they are reduced)',
                         'reference byte order and masking: mc/refasm.py to_bytes'],
-        'floors': {'evaluations': 1000, 'nontrivial': 100, 'statuses': ['OK'], 'clauses': ['numeric', 'string', 'cstr', 'embedded', 'fill']},
+        'floors': {'evaluations': 1000, 'nontrivial': 100, 'statuses': ['OK'], 'clauses': ['numeric', 'string', 'cstr', 'embedded', 'fill', 'scoped']},
         'nshards': 64,
     }
 
@@ -122,6 +122,22 @@ def shard(acc, tier, idx, n):
                     line = f'    "{text}"'
                     files = {'main.asm': wrap(('rawbytes', line, data + [tbyte]))}
                     run_c11(acc, params, isa_emb, files, 'embedded', (term, chars, 'emb') if special else None, text, ctr)
+    # ---- the same expression text in different label scopes (local regions, files) -----------------------
+    for endian in ('little', 'big'):
+        params = R.Params(address_size=16, endian=endian)
+        isa = probe_isa(16, endian)
+        for width in (1, 2, 4):
+            for exprs in ([('lab', '.v')], [('lab+', '.v', 1), ('lab', '.v')], [('lab', '_f')], [('lab', '.v'), ('lab+', '_f', 2)]):
+                ctr += 1
+                if ctr % n != idx:
+                    continue
+                region = lambda g, pad: [('label', g), ('data', width, list(exprs))] + [('nop',)] * pad + [('label', '.v'), ('nop',)]
+                main = [('label', '_f'), ('nop',)] + region('ga', 1) + region('gb', 3) + [('include', 'other.asm')] + region('gc', 0) + \
+                    [('data', 1, [0xEE])]
+                other = [('label', '_f'), ('nop',), ('nop',)] + region('gd', 2)
+                files = {'main.asm': main, 'other.asm': other}
+                run_program(acc, params, isa, files, clause='scoped', nontrivial=('scoped', endian, width, tuple(exprs)), sample=(width == 2),
+                            priority=-1)
     # ---- fills ---------------------------------------------------------------------------------------
     params = R.Params(address_size=16, endian='little')
     isa = probe_isa(16, 'little')
